@@ -300,8 +300,10 @@ class Handler:
     # -- /Encrypt dictionary -------------------------------------------------
     def encrypt_dict(self):
         d = {b"Filter": W.N("Standard"), b"V": self.V, b"R": self.R}
-        if self.R >= 4 or self.write_length or (self.R == 3 and self.bits != 40):
-            d[b"Length"] = self.bits  # optional for V1 (always 40) and defaults to 40 for V2
+        if self.write_length or (self.R == 3 and self.bits != 40):
+            # optional for V1 (always 40), defaults to 40 for V2/V3; for V4 and V5 the key length is given by the crypt
+            # filter (128 for V2/AESV2, 256 for AESV3) and the top-level entry may be left out
+            d[b"Length"] = self.bits
         if self.V >= 4:
             if self.cfm == "Identity":
                 if self.identity_cf:
